@@ -112,7 +112,7 @@ fn check_pair(base: &str, target: &str) -> (Option<Viol>, u64) {
 }
 
 pub fn run(run: &mut Run) -> Finish {
-    let maxc: u32 = run.ctx.tier.pick(6, 7);
+    let maxc: u32 = run.ctx.tier.pick(6, 8);
     let n = n_paths(maxc);
     // forms: (absolute?, separator of base, separator of target)
     let forms: [(bool, char, char); 6] = [(true, '/', '/'), (false, '/', '/'), (true, '\\', '\\'), (false, '\\', '\\'), (true, '/', '\\'), (false, '\\', '/')];
@@ -142,7 +142,7 @@ pub fn run(run: &mut Run) -> Finish {
     }
     Finish {
         level: "exploration",
-        rule: "E1: every ordered pair of paths with 1..N components (N=6 quick, 7 thorough) over the name pool {a,b,c}, in six forms (absolute/relative x separator combinations); distinct by construction. Oracle: component-wise resolution of the result against dir(base) equals the target, and '.' iff target = dir(base). Non-trivial = needs at least one '..' or one descended component; outcome class = (ups, downs) capped at 3.".into(),
+        rule: "E1: every ordered pair of paths with 1..N components (N=6 quick, 8 thorough) over the name pool {a,b,c}, in six forms (absolute/relative x separator combinations); distinct by construction. Oracle: component-wise resolution of the result against dir(base) equals the target, and '.' iff target = dir(base). Non-trivial = needs at least one '..' or one descended component; outcome class = (ups, downs) capped at 3.".into(),
         assumptions: vec!["paths made of ordinary components only (no '.', '..', empty components, drive letters) as the property states".into()],
         coverage_extra: json!({"max_components": maxc, "paths_per_form": n}),
     }
